@@ -725,6 +725,66 @@ pub fn enc_grid(thorough: bool) -> Vec<EncCase> {
             }
         }
     }
+    // (5) walking ones: every single bit of every variable-width field, so that a mask, shift or width
+    // error confined to one bit position cannot hide behind the class bounds
+    for cp in [0u8, 6, 129] {
+        for bit in 0..128u32 {
+            let mut c = enc_base(cp);
+            c.cci = (1u128 << bit).to_string();
+            v.push(c);
+        }
+        for bit in 0..48u32 {
+            let mut c = enc_base(cp);
+            c.tsi = 1u64 << bit;
+            v.push(c);
+        }
+        for bit in 0..112u32 {
+            let mut c = enc_base(cp);
+            c.toi = (1u128 << bit).to_string();
+            c.oti.inband_fti = bit % 2 == 0;
+            v.push(c);
+        }
+        for bit in 0..(if cp == 6 { 40u32 } else { 48 }) {
+            let mut c = enc_base(cp);
+            c.transfer_length = 1u64 << bit;
+            c.oti.inband_fti = true;
+            v.push(c);
+        }
+        let (sb, eb): (u32, u32) = match cp {
+            0 => (16, 16),
+            6 => (8, 24),
+            _ => (32, 16),
+        };
+        for bit in 0..sb {
+            let mut c = enc_base(cp);
+            c.sbn = 1u32 << bit;
+            v.push(c);
+        }
+        for bit in 0..eb {
+            let mut c = enc_base(cp);
+            c.esi = 1u32 << bit;
+            v.push(c);
+        }
+    }
+    for bit in 0..20u32 {
+        for rfc3926 in [false, true] {
+            let mut c = enc_base(0);
+            c.toi = "0".into();
+            c.fdt_id = 1 << bit;
+            c.rfc3926 = rfc3926;
+            v.push(c);
+        }
+    }
+    for bit in 0..51u32 {
+        // microseconds since 1970 up to 2^50 us (year 2005) and 2^50 + 2^bit
+        let mut c = enc_base(0);
+        c.toi = "0".into();
+        c.sct = true;
+        c.now_us = if bit < 51 { 1u64 << bit } else { 0 };
+        v.push(c.clone());
+        c.now_us = (1u64 << 50) + (1u64 << bit.min(49));
+        v.push(c);
+    }
     v
 }
 
@@ -914,6 +974,70 @@ pub fn dec_grid(thorough: bool) -> Vec<DecCase> {
                 d.sct_f = f;
                 v.push(d);
             }
+        }
+    }
+    // (5) walking ones through flute's parser (widest C/S/O/H layout so that every value fits)
+    for cp in [0u8, 6, 129] {
+        let wide = |cp: u8| {
+            let mut d = dec_base(cp);
+            d.c = 3;
+            d.s = 1;
+            d.o = 3;
+            d.h = 1;
+            d.exts = vec!["fti".into()];
+            d
+        };
+        for bit in 0..128u32 {
+            let mut d = wide(cp);
+            d.cci = (1u128 << bit).to_string();
+            v.push(d);
+        }
+        for bit in 0..48u32 {
+            let mut d = wide(cp);
+            d.tsi = 1u64 << bit;
+            v.push(d);
+        }
+        for bit in 0..112u32 {
+            let mut d = wide(cp);
+            d.toi = (1u128 << bit).to_string();
+            v.push(d);
+        }
+        for bit in 0..(if cp == 6 { 40u32 } else { 48 }) {
+            let mut d = wide(cp);
+            d.l = 1u64 << bit;
+            v.push(d);
+        }
+        let (sb, eb): (u32, u32) = match cp {
+            0 => (16, 16),
+            6 => (8, 24),
+            _ => (32, 16),
+        };
+        for bit in 0..sb {
+            let mut d = wide(cp);
+            d.sbn = 1u32 << bit;
+            v.push(d);
+        }
+        for bit in 0..eb {
+            let mut d = wide(cp);
+            d.esi = 1u32 << bit;
+            v.push(d);
+        }
+    }
+    for bit in 0..20u32 {
+        let mut d = dec_base(0);
+        d.toi = "0".into();
+        d.exts = vec!["fdt".into(), "fti".into()];
+        d.fdt_id = 1 << bit;
+        v.push(d);
+    }
+    for bit in 0..32u32 {
+        for kind in ["time", "time-hi"] {
+            let mut d = dec_base(0);
+            d.toi = "0".into();
+            d.exts = vec!["fdt".into(), kind.into(), "fti".into()];
+            d.sct_s = (2_208_988_800u64 as u32) | (1u32 << bit);
+            d.sct_f = 1u32 << bit;
+            v.push(d);
         }
     }
     v
